@@ -302,17 +302,55 @@ func genScalar(r *lib.RNG, t abiType) Val {
 	case "bool":
 		return Val{Bool: r.Bool()}
 	case "bytesN":
+		if r.Chance(1, 4) {
+			return Val{Bytes: zeroLead(r, t.N)}
+		}
 		return Val{Bytes: r.Bytes(t.N)}
 	case "string":
 		return Val{Str: genText(r, r.Intn(40))}
 	case "bytes":
+		if r.Chance(1, 5) {
+			return Val{Bytes: zeroLead(r, r.Range(2, 40))}
+		}
 		return Val{Bytes: r.Bytes(r.Intn(70))}
 	}
 	panic("genScalar")
 }
 
 // a small pool of addresses so that filters hit
+// zeroLead: an n-byte value from a small pool of families built around leading
+// zero bytes: z in {1, 2, n-1, n} leading zeros followed by a fixed remainder R_z;
+// variant 0 is that value, variant 1 differs from it only in the first byte,
+// variant 2 has its zero prefix replaced by non-zero bytes (it embeds R_z)
+func zeroLead(r *lib.RNG, n int) []byte {
+	zs := []int{1, 2, n - 1, n}
+	z := zs[r.Intn(len(zs))]
+	if z < 1 {
+		z = 1
+	}
+	if z > n {
+		z = n
+	}
+	b := make([]byte, n)
+	for i := z; i < n; i++ {
+		b[i] = byte(0xd0 + z%13 + i%3)
+	}
+	switch r.Intn(4) {
+	case 0, 1:
+	case 2:
+		b[0] = 0x01
+	default:
+		for i := 0; i < z; i++ {
+			b[i] = 0xee
+		}
+	}
+	return b
+}
+
 func genAddr(r *lib.RNG) []byte {
+	if r.Chance(1, 5) {
+		return zeroLead(r, 20)
+	}
 	a := make([]byte, 20)
 	k := byte(r.Intn(6))
 	for i := range a {
